@@ -794,6 +794,16 @@ impl TryFrom<&[u8]> for AdcV3Packet {
             .map(|b| i16::from_be_bytes(b.try_into().unwrap()))
             .collect();
 
+        // `requested_samples` includes two samples that are never sent. Anything
+        // smaller cannot carry a waveform (and would underflow the
+        // `requested_samples - 2` bounds below).
+        if requested_samples < 2 {
+            return Err(Self::Error::BadNumberOfSamples {
+                found: waveform.len(),
+                min: BASELINE_SAMPLES,
+                max: 0,
+            });
+        }
         if waveform.len() < BASELINE_SAMPLES {
             return Err(Self::Error::BadNumberOfSamples {
                 found: waveform.len(),
